@@ -552,7 +552,7 @@ inline int run(int argc, char** argv, const std::vector<Stream>& streams) {
     }
   }
   alarm(0);
-  write_summary(streams, per_stream, true);
+  if (a.only < 0 || out_file()) write_summary(streams, per_stream, true);
   if (outcome_file()) fclose(outcome_file());
   if (out_file()) fclose(out_file());
   return 0;
